@@ -1,12 +1,13 @@
 (** C11 — Scope close protocol: ordered events, commit xor rollback, waits for children.
     Statements only; every proof is [exact <lemma>] (Proofs/Scope.v, Proofs/ScopeClose.v,
-    Proofs/ScopeLive.v for the liveness part, Proofs/TaskCounter.v for the counter).
+    Proofs/ScopeLive.v for the liveness part, Proofs/TaskCounter.v for the counter, Proofs/C11More.v
+    for the trace-level statements added by the proof audit at the end of this file).
     System: [init progs] = any number of threads with any operation lists — scope trees of any depth
     with shared and isolated children and any listener sets (failing listeners included) are built
     by the operations themselves; [run cfg_current sched] = any interleaving (Model/Scope.v).
     The log holds one record per Trigger call (event, firing scope, listener calls made). *)
 From GC Require Import Common.Base Model.Scope Model.ScopeLive Model.TaskCounter.
-From GC Require Import Proofs.Scope Proofs.ScopeClose Proofs.ScopeLive Proofs.TaskCounter.
+From GC Require Import Proofs.Scope Proofs.ScopeClose Proofs.ScopeLive Proofs.TaskCounter Proofs.C11More.
 From Coq Require Import ZArith Permutation.
 Local Open Scope nat_scope.
 
@@ -324,4 +325,284 @@ Example C11_counter_example :
   (tc_counter s3, map tt_pc (tc_ths s3), map tt_out (tc_ths s3)) =
     (0%Z, [TIdle; TIdle; TIdle],
      [[TOAdd true; TOWait]; [TOWait; TOAdd false]; [TOAdd true; TOAdd true]]).
+Proof. vm_compute. repeat split. Qed.
+
+(** ** Proof audit: the clauses at trace level (Proofs/C11More.v)
+
+    The theorems of the first part state several clauses as facts about ONE micro-step on an
+    arbitrary shared state (C11_result, C11_double_close, the first part of C11_commit_xor_rollback,
+    the second of C11_waits, C11_isolated) or about functions (C11_listener_order).  The theorems
+    below state them about [run cfg_current sched (init progs)] for all programs and schedules, in
+    one state or between two states of one run ([s1] and [s1 ++ s2]). *)
+
+(** The scope tree, any depth: a parent is numbered before its child; a child shares its parent's
+    context or owns an isolated context on it; a registration is on the structural parent; a child
+    that is neither registered nor completely closed was created when the parent's context was
+    already done (the parent refused it).  And the fuel of [chain] is enough at any depth: more
+    fuel gives the same listener chain, so a Trigger reaches the listeners of every ancestor up to
+    the root (this is what C11_listener_order, about [chain (S f)], left open). *)
+Theorem C11_tree_shape : forall progs sched,
+  let st := run cfg_current sched (init progs) in
+  (forall c p, s_parent (gets (sh st) c) = Some p ->
+     p < c /\ c < length (scopes (sh st)) /\
+     (s_ctx (gets (sh st) c) = s_ctx (gets (sh st) p) \/
+      c_iso (getc (sh st) (s_ctx (gets (sh st) c))) = Some (s_ctx (gets (sh st) p))) /\
+     (s_reg (gets (sh st) c) = Some p \/ closed_pc (s_pc (gets (sh st) c)) = true \/
+      c_done (getc (sh st) (s_ctx (gets (sh st) p))) = true)) /\
+  (forall c q, s_reg (gets (sh st) c) = Some q -> s_parent (gets (sh st) c) = Some q) /\
+  (forall f s e, s < f -> chain f (sh st) s e = chain (S s) (sh st) s e).
+Proof. exact tree_shape. Qed.
+Print Assumptions C11_tree_shape.
+
+(** Closing twice, at trace level (supersedes C11_double_close, which is one step): over a whole
+    run at most one Close call per scope is ever accepted - [tokens] counts the threads that hold
+    the token of the scope's Close state machine, [returns] the [OClosed s _] observed by all
+    threads; none before Close is called, exactly one return and no token once it has finished, so
+    Close returns at most once, to one caller; every other call met [closing] and panicked. *)
+Theorem C11_close_once : forall progs sched s,
+  let st := run cfg_current sched (init progs) in
+  tokens s st + returns s st <= 1 /\
+  (s_pc (gets (sh st) s) = CNone -> tokens s st = 0 /\ returns s st = 0) /\
+  (returns s st = 1 <-> s_pc (gets (sh st) s) = CFinished) /\
+  (s_pc (gets (sh st) s) = CFinished -> tokens s st = 0) /\
+  (forall th h, In th (ths st) -> In (OClosed s h) (t_out th) ->
+     returns s st = 1 /\ s_pc (gets (sh st) s) = CFinished).
+Proof. exact close_once. Qed.
+Print Assumptions C11_close_once.
+
+(** The result, at trace level (supersedes C11_result, which is one step).  Whatever any thread has
+    observed as the return of Close on [s]: the scope has fired its whole word; a rollback was
+    reported as an error; a reported error is held by the scope now (and for ever: error lists only
+    grow); and in the very step in which Close returns the answer is 'the error list is non-empty',
+    read in that step. *)
+Theorem C11_result_holds : forall progs sched th s h,
+  let st := run cfg_current sched (init progs) in
+  In th (ths st) -> In (OClosed s h) (t_out th) ->
+  s_pc (gets (sh st) s) = CFinished /\ returns s st = 1 /\
+  exists b, s_branch (gets (sh st) s) = Some b /\ close_word (log (sh st)) s = full_word b /\
+            (b = false -> h = true) /\ (h = true -> errs_of (sh st) s <> []).
+Proof. exact result_holds. Qed.
+Print Assumptions C11_result_holds.
+
+Theorem C11_result_at_return : forall progs s1 t st' th' s h,
+  let st := run cfg_current s1 (init progs) in
+  step cfg_current t st = Some st' -> returns s st = 0 ->
+  In th' (ths st') -> In (OClosed s h) (t_out th') ->
+  s_pc (gets (sh st) s) = CRet /\ h = negb (isnil (errs_of (sh st) s)) /\
+  errs_of (sh st') s = errs_of (sh st) s /\ s_pc (gets (sh st') s) = CFinished.
+Proof. exact result_at_return. Qed.
+Print Assumptions C11_result_at_return.
+
+(** Commit xor rollback, at trace level.  The decision has ONE moment: if the branch of [s] is open
+    after [s1] and is [b] after [s1 ++ s2], then [s2] splits around one step taken with the Close of
+    [s] at CDecide, and [b] is 'the error list of that state is empty'.  A rollback scope holds an
+    error in every reachable state. *)
+Theorem C11_decision_moment : forall progs s1 s2 s b,
+  let st1 := run cfg_current s1 (init progs) in
+  let st2 := run cfg_current (s1 ++ s2) (init progs) in
+  s_branch (gets (sh st1) s) = None -> s_branch (gets (sh st2) s) = Some b ->
+  exists s3 t s4, s2 = s3 ++ t :: s4 /\
+    let stm := run cfg_current (s1 ++ s3) (init progs) in
+    s_pc (gets (sh stm) s) = CDecide /\ s_branch (gets (sh stm) s) = None /\
+    b = isnil (errs_of (sh stm) s) /\
+    s_branch (gets (sh (run cfg_current (s1 ++ s3 ++ [t]) (init progs))) s) = Some b.
+Proof. exact decision_moment. Qed.
+Print Assumptions C11_decision_moment.
+
+Theorem C11_rollback_holds_error : forall progs sched s,
+  let st := run cfg_current sched (init progs) in
+  s_branch (gets (sh st) s) = Some false -> errs_of (sh st) s <> [].
+Proof. exact (fun progs sched => rb_reach cfg_current progs sched). Qed.
+Print Assumptions C11_rollback_holds_error.
+
+(** An error or kill in a child that shares the parent's context fails the parent - end to end
+    (C11_shared stops at 'the parent holds the error').  If a signalling call with a non-nil error
+    on the context of [s] has completed - on ANY scope or handle of that context: a shared child
+    (C11_tree_shape: same context), a grand-child, the scope itself - before the Close of [s] has
+    decided, then [s] can never take the commit branch, and once its Close has finished it has
+    fired the rollback word and every caller that got an answer got an error.  The second theorem
+    is the same for any held error, however it came to be held. *)
+Theorem C11_shared_error_fails_parent : forall progs s1 s2 th c es e s,
+  let st1 := run cfg_current s1 (init progs) in
+  let st2 := run cfg_current (s1 ++ s2) (init progs) in
+  In th (ths st1) -> In (c, es) (t_acks th) -> In e es ->
+  valids (sh st1) s = true -> s_ctx (gets (sh st1) s) = c -> s_branch (gets (sh st1) s) = None ->
+  s_branch (gets (sh st2) s) <> Some true /\
+  (s_pc (gets (sh st2) s) = CFinished ->
+   s_branch (gets (sh st2) s) = Some false /\ close_word (log (sh st2)) s = full_word false /\
+   forall th2 h, In th2 (ths st2) -> In (OClosed s h) (t_out th2) -> h = true).
+Proof. exact completed_error_fails. Qed.
+Print Assumptions C11_shared_error_fails_parent.
+
+Theorem C11_error_before_decision : forall progs s1 s2 s,
+  let st1 := run cfg_current s1 (init progs) in
+  let st2 := run cfg_current (s1 ++ s2) (init progs) in
+  valids (sh st1) s = true -> s_branch (gets (sh st1) s) = None -> errs_of (sh st1) s <> [] ->
+  s_branch (gets (sh st2) s) <> Some true /\
+  (s_pc (gets (sh st2) s) = CFinished ->
+   s_branch (gets (sh st2) s) = Some false /\ close_word (log (sh st2)) s = full_word false /\
+   forall th h, In th (ths st2) -> In (OClosed s h) (t_out th) -> h = true).
+Proof. exact error_before_decision. Qed.
+Print Assumptions C11_error_before_decision.
+
+(** Close waits for its children, at trace level (C11_waits gives the counter identity, the state
+    in which the wait returns, and the step that clears a registration; this is their combination
+    over a run).  If child [c] is registered on [s] after [s1] and the Close of [s] has not passed
+    its wait there (not called, in BeforeClose, or waiting), then in any later state in which it
+    HAS passed the wait - deciding, or firing the commit/rollback triple or AfterClose, or returned -
+    [c] has completely closed: it fired its whole word, AfterClose included, and signed off.  The
+    hypothesis is the documented discipline 'DoneTask only for accepted tasks': the ghost count of
+    [s] is never negative on the way (it is needed: C11_waits_needs_discipline).  With
+    C11_tree_shape this is every child except those the parent refused because its context was
+    already done - for which the clause is false: C11_waits_every_child_refuted. *)
+Theorem C11_waits_for_children : forall progs s1 s2 s c,
+  let st1 := run cfg_current s1 (init progs) in
+  let st2 := run cfg_current (s1 ++ s2) (init progs) in
+  s_reg (gets (sh st1) c) = Some s ->
+  past_wait (s_pc (gets (sh st1) s)) = false ->
+  past_wait (s_pc (gets (sh st2) s)) = true ->
+  (forall s3 s4, s2 = s3 ++ s4 ->
+     (0 <= s_tasks (gets (sh (run cfg_current (s1 ++ s3) (init progs))) s))%Z) ->
+  closed_pc (s_pc (gets (sh st2) c)) = true /\ s_reg (gets (sh st2) c) = None /\
+  exists b, s_branch (gets (sh st2) c) = Some b /\ close_word (log (sh st2)) c = full_word b.
+Proof. exact waits_for_children. Qed.
+Print Assumptions C11_waits_for_children.
+
+(** The clause 'waits until every child scope has been closed' is FALSE for a child created on a
+    parent whose context is already done: AddTasks refuses it (ErrDoned), NewChild does not
+    register it (that is the repair F20), and the parent's Close commits and returns nil while the
+    child has not started to close.  Here the parent was stopped (done, no error).  The
+    implementation does the same (throw-away test against /repo at 3f81e38: root.Stop(),
+    NewChild(root), root.Close() returns nil at once, the child closes afterwards without a panic). *)
+Theorem C11_waits_every_child_refuted : exists progs sched s c,
+  let st := run cfg_current sched (init progs) in
+  Forall (Forall (fun o => op_nodone o = true)) progs /\
+  s_parent (gets (sh st) c) = Some s /\ s_pc (gets (sh st) c) = CNone /\
+  s_pc (gets (sh st) s) = CFinished /\ close_word (log (sh st)) s = full_word true /\
+  (exists th, In th (ths st) /\ In (OClosed s false) (t_out th)) /\
+  c_done (getc (sh st) (s_ctx (gets (sh st) s))) = true /\ errs_of (sh st) s = [].
+Proof. exact waits_every_child_refuted. Qed.
+Print Assumptions C11_waits_every_child_refuted.
+
+(** An isolated child is still stopped when the parent stops (C11_isolated gives the watcher's
+    micro-steps; nothing there says that a watcher thread exists or that it gets through).  In
+    every reachable state, for every isolated context [c] on [p] with [p] done, there is a thread
+    [w] - the watcher - such that under EVERY continuation, whatever the other threads do in
+    between: as long as [c] is not done [w] can take a step (either value of the choice bit), and
+    after [w] has been scheduled four times [c] is done. *)
+Theorem C11_isolated_stopped_with_parent : forall progs sched c p,
+  let st := run cfg_current sched (init progs) in
+  validc (sh st) c = true -> c_iso (getc (sh st) c) = Some p -> c_done (getc (sh st) p) = true ->
+  exists w,
+    (forall sched1, 4 <= sched_count w sched1 -> c_done (getc (sh (run cfg_current sched1 st)) c) = true) /\
+    (forall sched1, let st1 := run cfg_current sched1 st in
+       c_done (getc (sh st1) c) = false -> forall b, exists st2, step cfg_current (w, b) st1 = Some st2).
+Proof. exact isolated_stopped. Qed.
+Print Assumptions C11_isolated_stopped_with_parent.
+
+(** Non-vacuity of the audit theorems (every hypothesis is met by a reachable, non-trivial state). *)
+Example C11_tree_example :
+  let st := run cfg_current ex_sched (init ex_progs) in
+  map s_parent (scopes (sh st)) = [None; Some 0; Some 0; Some 1] /\
+  map s_ctx (scopes (sh st)) = [0; 0; 1; 0] /\ map c_iso (ctxs (sh st)) = [None; Some 0] /\
+  chain 9 (sh st) 3 ECommit = chain 4 (sh st) 3 ECommit /\
+  chain 4 (sh st) 3 ECommit = [(0, 1, None); (1, 4, Some 9%N)].
+Proof. vm_compute. repeat split. Qed.
+
+Example C11_close_once_example :
+  let st := run cfg_current ex_sched (init ex_progs) in
+  map (fun s => (tokens s st, returns s st)) [0; 1; 2; 3; 4] = [(0, 1); (0, 1); (0, 1); (0, 1); (0, 0)] /\
+  (let st1 := run cfg_current (repeat (t 0) 40) (init ex_progs) in
+   (tokens 0 st1, returns 0 st1, s_pc (gets (sh st1) 0)) = (1, 0, CWait)) /\
+  exists th, In th (ths st) /\ In (OClosed 3 true) (t_out th) /\ In (OPanic PDouble) (t_out th).
+Proof.
+  vm_compute. split; auto. split; auto. eexists. split. right; right; left; reflexivity.
+  simpl. split. right; left; reflexivity. right; right; left; reflexivity.
+Qed.
+
+Example C11_result_example :
+  let st := run cfg_current ex_sched (init ex_progs) in
+  (exists th, In th (ths st) /\ In (OClosed 0 true) (t_out th)) /\
+  s_branch (gets (sh st) 0) = Some false /\ errs_of (sh st) 0 = [9%N] /\
+  (exists th, In th (ths st) /\ In (OClosed 2 false) (t_out th)) /\
+  s_branch (gets (sh st) 2) = Some true.
+Proof.
+  vm_compute. split. eexists. split. left; reflexivity. simpl. right; left; reflexivity.
+  split; auto. split; auto. split; auto. eexists. split. right; right; left; reflexivity. simpl. left; reflexivity.
+Qed.
+
+Definition ex_refused : list (list op) := [[ONewRoot; OStop 0; ONewChild 0 false; OClose 0; OClose 1]].
+Example C11_result_at_return_example :
+  let st := run cfg_current (repeat (t 0) 15) (init ex_refused) in
+  returns 0 st = 0 /\ s_pc (gets (sh st) 0) = CRet /\
+  option_map (fun st' => (map t_out (ths st'), s_pc (gets (sh st') 0))) (step cfg_current (t 0) st)
+  = Some ([[OClosed 0 false]], CFinished).
+Proof. vm_compute. repeat split. Qed.
+
+Example C11_decision_example :
+  s_branch (gets (sh (run cfg_current [] (init ex_progs))) 0) = None /\
+  s_branch (gets (sh (run cfg_current ([] ++ ex_sched) (init ex_progs))) 0) = Some false /\
+  s_branch (gets (sh (run cfg_current ([] ++ ex_sched) (init ex_progs))) 2) = Some true.
+Proof. vm_compute. repeat split. Qed.
+
+(** a Kill on the shared child 1 completes (the ack is recorded) while the Close of the parent 0 is
+    waiting; the parent then rolls back and reports the error *)
+Definition ex_kill : list (list op) := [[ONewRoot; ONewChild 0 false; OClose 0]; [OKill 1; OClose 1]].
+Example C11_shared_fails_example :
+  let s1 := repeat (t 0) 6 ++ repeat (t 1) 5 in
+  let s2 := repeat (t 1) 30 ++ repeat (t 0) 30 in
+  let st1 := run cfg_current s1 (init ex_kill) in
+  let st2 := run cfg_current (s1 ++ s2) (init ex_kill) in
+  (exists th, In th (ths st1) /\ In (0, [Canceled]) (t_acks th)) /\
+  valids (sh st1) 0 = true /\ s_ctx (gets (sh st1) 0) = 0 /\ s_ctx (gets (sh st1) 1) = 0 /\
+  s_parent (gets (sh st1) 1) = Some 0 /\
+  s_pc (gets (sh st1) 0) = CWait /\ s_branch (gets (sh st1) 0) = None /\ errs_of (sh st1) 0 = [Canceled] /\
+  s_pc (gets (sh st2) 0) = CFinished /\ close_word (log (sh st2)) 0 = full_word false /\
+  map t_out (ths st2) = [[OClosed 0 true]; [OClosed 1 true]].
+Proof. vm_compute. split. eexists. split. right; left; reflexivity. simpl. left; reflexivity. repeat split. Qed.
+
+(** the parent parks in its wait with a task and a registered child outstanding; the other thread
+    finishes the task and closes the child; the ghost count is never negative on the way *)
+Definition ex_wait : list (list op) :=
+  [[ONewRoot; ONewChild 0 false; OAddTasks 0; OClose 0]; [ODoneTask 0; OClose 1]].
+Example C11_waits_for_children_example :
+  let s1 := repeat (t 0) 12 in
+  let s2 := repeat (t 1) 30 ++ repeat (t 0) 30 in
+  let st1 := run cfg_current s1 (init ex_wait) in
+  let st2 := run cfg_current (s1 ++ s2) (init ex_wait) in
+  s_reg (gets (sh st1) 1) = Some 0 /\ s_pc (gets (sh st1) 0) = CWait /\
+  past_wait (s_pc (gets (sh st1) 0)) = false /\ past_wait (s_pc (gets (sh st2) 0)) = true /\
+  (forall s3 s4, s2 = s3 ++ s4 ->
+     (0 <= s_tasks (gets (sh (run cfg_current (s1 ++ s3) (init ex_wait))) 0))%Z) /\
+  s_pc (gets (sh st2) 1) = CFinished.
+Proof.
+  split. vm_compute; reflexivity. split. vm_compute; reflexivity. split. vm_compute; reflexivity.
+  split. vm_compute; reflexivity. split; [|vm_compute; reflexivity].
+  apply tasks_prefix_check. vm_compute. reflexivity.
+Qed.
+
+(** The discipline is needed: one DoneTask too many takes the registration of the child, the parent
+    passes its wait while the child has not started to close (and the child's sign-off will panic). *)
+Definition ex_misuse : list (list op) := [[ONewRoot; ONewChild 0 false; ODoneTask 0; OClose 0; OClose 1]].
+Example C11_waits_needs_discipline :
+  let st1 := run cfg_current (repeat (t 0) 2) (init ex_misuse) in
+  let st2 := run cfg_current (repeat (t 0) 2 ++ repeat (t 0) 6) (init ex_misuse) in
+  s_reg (gets (sh st1) 1) = Some 0 /\ past_wait (s_pc (gets (sh st1) 0)) = false /\
+  past_wait (s_pc (gets (sh st2) 0)) = true /\ s_pc (gets (sh st2) 1) = CNone /\
+  s_tasks (gets (sh st2) 0) = (-1)%Z /\
+  all_panics (run cfg_current (repeat (t 0) 40) (init ex_misuse)) = [OPanic PNegWG].
+Proof. vm_compute. repeat split. Qed.
+
+(** the running example just before the watcher of the isolated context 1 moves: the parent's
+    context 0 is done (a listener error), context 1 is not; four steps of thread 3, either choice
+    bit, and it is done, killed because the parent holds an error *)
+Example C11_isolated_stopped_example :
+  let sched0 := repeat (t 0) 40 ++ repeat (t 1) 10 ++ repeat (t 2) 60 ++ repeat (t 1) 40 ++ repeat (t 0) 40 in
+  let st := run cfg_current sched0 (init ex_progs) in
+  validc (sh st) 1 = true /\ c_iso (getc (sh st) 1) = Some 0 /\ c_done (getc (sh st) 0) = true /\
+  c_done (getc (sh st) 1) = false /\
+  c_done (getc (sh (run cfg_current (repeat (3, false) 3) st)) 1) = false /\
+  (let st' := run cfg_current (repeat (3, false) 4) st in
+   c_done (getc (sh st') 1) = true /\ c_errors (getc (sh st') 1) = [Canceled] /\
+   c_errors (getc (sh st') 0) = [9%N]).
 Proof. vm_compute. repeat split. Qed.
